@@ -12,12 +12,14 @@ for d in /verif/seeded/*/; do
   prop=$(python3 -c "import json;print(json.load(open('$d/meta.json'))['property'])")
   git apply --3way $d/patch.diff 2>/dev/null || git apply $d/patch.diff || { echo "| $name | $prop | - | PATCH DOES NOT APPLY | |" >> $OUT; git checkout -q -- .; continue; }
   git reset -q
-  res=$(cd /verif && TIER=$TIER ./scripts/check.sh $prop $TIER 2>&1)
+  also=$(python3 -c "import json;print(' '.join(json.load(open('$d/meta.json')).get('also_run',[])))")
+  for chk in $prop $also; do
+    res=$(cd /verif && TIER=$TIER ./scripts/check.sh $chk $TIER 2>&1)
+    rule=$(echo "$res" | grep -E "^  rule=" | head -1 | sed -E 's/^  rule=([^ ]+) sig=([^ ]+).*/\1 \/ \2/')
+    if echo "$res" | grep -q "^VIOLATION"; then r="CAUGHT"; else r="missed"; fi
+    echo "| $name | $prop | $chk $TIER | $r | $rule |" >> $OUT
+    echo "$name [$chk] $r $rule"
+  done
   git checkout -q -- . ; git clean -fdq x app ante types cmd 2>/dev/null
-  line=$(echo "$res" | grep -E "^$prop (quick|thorough)" | tail -1)
-  rule=$(echo "$res" | grep -E "^  rule=" | head -1 | sed -E 's/^  rule=([^ ]+) sig=([^ ]+).*/\1 \/ \2/')
-  if echo "$res" | grep -q "^VIOLATION"; then r="CAUGHT"; else r="missed"; fi
-  echo "| $name | $prop | $prop $TIER | $r | $rule |" >> $OUT
-  echo "$name $r $rule"
 done
 cd /verif && ./scripts/check.sh C19 quick >/dev/null 2>&1  # leave bin/ built from the clean tree
